@@ -276,7 +276,7 @@ type crlBackend struct {
 	ln      net.Listener
 	mu      sync.Mutex
 	conn    net.Conn
-	gate    chan struct{} // non-nil while the backend does not read
+	gate    chan struct{}   // non-nil while the backend does not read
 	reqs    map[uint32]byte // relay-side id -> mode (first byte of arg3)
 	cancels int
 	wmu     sync.Mutex
